@@ -115,10 +115,17 @@ def plan(tier, seed):
     recs = [r for r in corpus.load() if r["codemod"].startswith("pixee:") and r["codemod"].split("/")[1] in VOCAB and r["input"] != r["expected"] and not r["files"]]
     by = collections.defaultdict(dict)
     ctxs = ("module", "def") if tier == "quick" else ("module", "def", "method", "nested")
-    nshape = collections.Counter()
+    nshape = collections.Counter(); forms_seen = collections.defaultdict(set)
+    def call_forms(src):
+        """how the calls of a seed pass their arguments: (number of positional arguments, keyword names) per call - seeds that differ here exercise different branches of a rewrite"""
+        try: t = ast.parse(src)
+        except SyntaxError: return frozenset()
+        return frozenset((len(n.args), tuple(sorted(k.arg or "**" for k in n.keywords))) for n in ast.walk(t) if isinstance(n, ast.Call))
     for r in recs:
         nshape[r["codemod"]] += 1
-        with_shapes = tier != "quick" or nshape[r["codemod"]] <= 3
+        # quick tier: the call shapes go onto the first three seeds of a codemod and onto every seed whose calls pass their arguments in a form not seen before (at most eight per codemod)
+        fm = call_forms(r["input"]); new_form = fm not in forms_seen[r["codemod"]] and len(forms_seen[r["codemod"]]) < 8; forms_seen[r["codemod"]].add(fm)
+        with_shapes = tier != "quick" or nshape[r["codemod"]] <= 3 or new_form
         for c in ctxs:
             try: s = gen.ctx(r["input"], c)
             except Exception: s = None
